@@ -53,12 +53,14 @@ static CO_ERR UtUserWrite(CO_OBJ *o, CO_NODE *n, void *b, uint32_t s)
     if (*(uint32_t *)b > 100u) { COObjTypeUserSDOAbort(o, n, SDO_USER_ABORT); return *(uint32_t *)b == 200u ? CO_ERR_OBJ_RANGE : CO_ERR_TYPE_WR; }
     *(uint32_t *)o->Data = *(uint32_t *)b; return CO_ERR_NONE;
 }
+/* a parameter group over the 32-bit variable 2002h whose NVM image differs from RAM (changed and not saved): reading 1010h must not load it */
+static CO_PARA SdoPara; static uint32_t SdoParaDflt = 0x0D0E0F00u;
 static const CO_OBJ_TYPE UtRange = { UtSize, 0, UtRead, UtRangeWrite, 0 };
 static const CO_OBJ_TYPE UtUser  = { UtSize, 0, UtRead, UtUserWrite, 0 };
 
 enum { K_BASIC, K_DOMAIN, K_STRING, K_RANGE, K_USER };
 typedef struct { uint16_t idx; uint8_t sub, rd, wr, kind; uint32_t size; uint8_t *mem; uint8_t direct, nid; } ODesc;
-enum { O_U8, O_U16, O_U32, O_U32D, O_RO, O_WO, O_NID, O_U16D, O_U8D, O_U32Z, O_DOM3, O_DOMA, O_DOMB, O_STR3, O_STR5, O_STR12, O_STRV, O_SUB0, O_SUB1, O_RANGE, O_USER, O_N };
+enum { O_U8, O_U16, O_U32, O_U32D, O_RO, O_WO, O_NID, O_U16D, O_U8D, O_U32Z, O_PSTORE0, O_DOM3, O_DOMA, O_DOMB, O_STR3, O_STR5, O_STR12, O_STRV, O_SUB0, O_SUB1, O_RANGE, O_USER, O_N };
 static ODesc OBJ[O_N];
 static uint8_t MV[O_N][SDO_DS2 + 1];       /* the model's copy of every object's SDO-visible value */
 static uint8_t MV0[O_N][SDO_DS2 + 1];      /* ... and the initial values */
@@ -104,6 +106,10 @@ static void sdo_world_build(uint32_t nmt_operational)
     od_add(&b, CO_KEY(0x1201, 1, CO_OBJ_D___R_), CO_TUNSIGNED32, (CO_DATA)0x6C1);
     od_add(&b, CO_KEY(0x1201, 2, CO_OBJ_D___R_), CO_TUNSIGNED32, (CO_DATA)0x5C1);
 #endif
+    SdoPara.Offset = 0x60; SdoPara.Size = 4; SdoPara.Start = (uint8_t *)&V32; SdoPara.Default = (uint8_t *)&SdoParaDflt; SdoPara.Type = CO_RESET_COM; SdoPara.Ident = (void *)"v32"; SdoPara.Value = CO_PARA___E;
+    od_add(&b, CO_KEY(0x1010, 0, CO_OBJ_D___R_), CO_TPARA_STORE, (CO_DATA)1);
+    od_add(&b, CO_KEY(0x1010, 1, CO_OBJ_____RW), CO_TPARA_STORE, (CO_DATA)&SdoPara);
+    memcpy(&DRV.nvm[0x60], &V32, 4);                                  /* the image the node starts from */
     od_add(&b, CO_KEY(0x2000, 0, CO_OBJ_____RW), CO_TUNSIGNED8,  (CO_DATA)&V8);
     od_add(&b, CO_KEY(0x2001, 0, CO_OBJ_____RW), CO_TUNSIGNED16, (CO_DATA)&V16);
     od_add(&b, CO_KEY(0x2002, 0, CO_OBJ_____RW), CO_TUNSIGNED32, (CO_DATA)&V32);
@@ -132,6 +138,7 @@ static void sdo_world_build(uint32_t nmt_operational)
     sdo_def(O_RO,   0x2004, 0, 1, 0, K_BASIC, 4, &V32ro, 0, 0);
     sdo_def(O_WO,   0x2005, 0, 0, 1, K_BASIC, 4, &V32wo, 0, 0);
     sdo_def(O_NID,  0x2006, 0, 1, 1, K_BASIC, 4, &V32nid, 0, 1);
+    sdo_def(O_PSTORE0, 0x1010, 0, 1, 0, K_BASIC, 1, 0, 1, 0);
     sdo_def(O_U16D, 0x2007, 0, 1, 1, K_BASIC, 2, 0, 1, 0);
     sdo_def(O_U8D,  0x2008, 0, 1, 1, K_BASIC, 1, 0, 1, 0);
     sdo_def(O_U32Z, 0x2009, 0, 1, 1, K_BASIC, 4, 0, 1, 0);
@@ -152,6 +159,8 @@ static void sdo_world_build(uint32_t nmt_operational)
     CONodeStart(&Node);
     if (nmt_operational) CONmtSetMode(&Node.Nmt, CO_OPERATIONAL);
     (void)CONodeGetErr(&Node);
+    { uint32_t other = 0xDEADBEEFu; memcpy(&DRV.nvm[0x60], &other, 4); }   /* NVM and RAM differ from now on */
+    W_REG(SdoPara);
     memset(MV, 0, sizeof MV);
     for (i = 0; i < O_N; i++) impl_value(i, MV[i]);
     memcpy(MV0, MV, sizeof MV0);
